@@ -164,10 +164,11 @@ func (sesh *Session) OpenStream() (*Stream, error) {
 		sesh.streamsM.Unlock()
 		return nil, ErrBrokenSession
 	}
+	// count the stream before it becomes visible, so the inactivity check never sees a published stream as idle
+	sesh.streamCountIncr()
 	sesh.streams[id] = stream
 	sesh.streamsM.Unlock()
 	verifhook.At("sesh.open.registered", uint64(id))
-	sesh.streamCountIncr()
 	log.Tracef("stream %v of session %v opened", id, sesh.id)
 	return stream, nil
 }
@@ -263,12 +264,12 @@ func (sesh *Session) recvDataFromRemote(data []byte) error {
 		return existingStream.recvFrame(frame)
 	} else {
 		newStream := makeStream(sesh, frame.StreamID)
+		sesh.streamCountIncr()
 		sesh.streams[frame.StreamID] = newStream
 		sesh.acceptCh <- newStream
 		sesh.streamsM.Unlock()
 		verifhook.At("sesh.recv.published", uint64(frame.StreamID))
 		// new stream
-		sesh.streamCountIncr()
 		return newStream.recvFrame(frame)
 	}
 }
